@@ -109,6 +109,37 @@ ASSUMPTIONS = [
     "interpreter's `re` (reference engine)",
 ]
 
+EXPLANATION += (
+    "  R19.8 (rules/c19_early_exit.py) decides what may count towards "
+    "setup_build's early exit: the plan loop stops writing statements once a "
+    "local set covers the requested files (the runner attribute filled from "
+    "conf.inputs; the test may be `>=`, `<=`, issuperset / issubset or an "
+    "empty difference), so 'each requested file is analysed exactly once for "
+    "errors' needs that the set gains a module only in an iteration that "
+    "writes the module's final statement.  The set must be a local created "
+    "empty before the loop that only grows by `.add(..)` inside it.  The path "
+    "condition of every add site is evaluated for each stage: comparisons of "
+    "the loop's stage variable with Stage constants (==, !=, is, membership in "
+    "a tuple) and tests of a local whose constant value is chosen per stage "
+    "(the suffix: `if not suffix`, `suffix == ''`), in if/elif arms, guard "
+    "clauses, asserts or conditional expressions; tests that do not mention "
+    "the stage or a stage-decided local are taken as satisfiable; a "
+    "stage-dependent test of another shape is an analysis error.  FIRST_PASS: "
+    "no add site may execute (a first-pass statement is `infer` into the "
+    "suffixed stub; counting it lets the first passes over a cycle satisfy the "
+    "early exit and skips the second-pass check statements).  SINGLE_PASS / "
+    "SECOND_PASS: what is added must be built from the plan loop's module - "
+    "the one handed to write_build_statement - and from the add site every "
+    "path to the end of the iteration (continue / break / falling off the "
+    "body) must call write_build_statement, unless it was already called.  Not "
+    "decided by R19.8: that the set is complete (a module never added only "
+    "makes the early exit later), other consumers of the returned set.")
+ASSUMPTIONS.append(
+    "R19.8: final statements are exactly the SINGLE_PASS / SECOND_PASS ones "
+    "(R19.3 decides that they, and only they, carry the empty suffix); the "
+    "requested files are the runner attribute assigned from conf.inputs in "
+    "__init__; asserts are taken as guards (as elsewhere in the engine)")
+
 RUN = "pytype/tools/analyze_project/pytype_runner.py"
 LOADER = "pytype/imports_map_loader.py"
 RUNNER = "PytypeRunner"
